@@ -727,6 +727,46 @@ pub const Z3_ARG_SETS: [&str; 6] = [
     "smt.arith.random_initial_value=true smt.random_seed=1234 sat.random_seed=4321 smt.phase_selection=5",
 ];
 
+/// C02: a constraint under which the executions of many small systems die out after a few steps
+/// (`s != v` or `s < v` for a bit-vector state s): with check_constraints = true bmc then meets
+/// unsatisfiable constraints at some step.
+fn add_dying_constraint(ctx: &mut Context, sys: &mut TransitionSystem, rng: &mut Rng) -> bool {
+    let cand: Vec<(ExprRef, WidthInt)> = sys
+        .states
+        .iter()
+        .filter_map(|s| match s.symbol.get_type(ctx) {
+            Type::BV(w) if (2..=8).contains(&w) => Some((s.symbol, w)),
+            _ => None,
+        })
+        .collect();
+    if cand.is_empty() || rng.chance(1, 2) {
+        // a counter of its own: `dc` counts up from 0 and must stay below v, so every execution ends
+        // after exactly v - 1 steps (the constraints are unsatisfiable from step v on)
+        let w = rng.range(2, 3) as WidthInt;
+        let v = rng.range(1, (1u64 << w) - 1);
+        let dc = ctx.bv_symbol("dc", w);
+        let one = ctx.bit_vec_val(1, w);
+        let zero = ctx.bit_vec_val(0, w);
+        let next = ctx.add(dc, one);
+        sys.add_state(ctx, State { symbol: dc, init: Some(zero), next: Some(next) });
+        let l = ctx.bit_vec_val(v, w);
+        let c = ctx.greater(l, dc);
+        sys.constraints.push(c);
+        return true;
+    }
+    let (sym, w) = cand[rng.below(cand.len() as u64) as usize];
+    let v = rng.range(1, (1u64 << w) - 1);
+    let l = ctx.bit_vec_val(v, w);
+    let c = if rng.chance(1, 2) {
+        let e = ctx.equal(sym, l);
+        ctx.not(e)
+    } else {
+        ctx.greater(l, sym)
+    };
+    sys.constraints.push(c);
+    true
+}
+
 /// shared by C02 (`witness_focus = false`) and C03 (`true`: only failing systems are kept, and each
 /// is re-run under several model-diversity settings)
 pub fn run_mc(args: &Args, witness_focus: bool) {
@@ -766,6 +806,10 @@ pub fn run_mc(args: &Args, witness_focus: bool) {
             plan.push(RunSpec { profile: "z3", fresh: false, individually: true, simplified: false, in_child: false, engine: Engine::BmcCc });
             plan.push(RunSpec { profile: "yices-smt2", fresh: false, individually: rng.chance(1, 2), simplified: rng.chance(1, 3), in_child: false, engine: Engine::BmcCc });
             plan.push(RunSpec { profile: "z3", fresh: true, individually: false, simplified: false, in_child: false, engine: Engine::Pdr });
+        } else {
+            // C02: the verdict with check_constraints = true (Fail at the same depth; Success only if the
+            // constraints stay satisfiable; the documented assert_eq! panic otherwise: C02_bmc_full_exact)
+            plan.push(RunSpec { profile: "z3", fresh: false, individually: rng.chance(1, 2), simplified: false, in_child: false, engine: Engine::BmcCc });
         }
         plan
     };
@@ -788,6 +832,10 @@ pub fn run_mc(args: &Args, witness_focus: bool) {
                     for (ind, simp) in [(true, false), (false, false), (true, true), (false, true)] {
                         plan.push(RunSpec { profile: p, fresh: true, individually: ind, simplified: simp, in_child: false, engine: Engine::Bmc });
                     }
+                }
+                if !witness_focus {
+                    plan.push(RunSpec { profile: "z3", fresh: true, individually: true, simplified: false, in_child: false, engine: Engine::BmcCc });
+                    plan.push(RunSpec { profile: "z3", fresh: true, individually: false, simplified: false, in_child: false, engine: Engine::BmcCc });
                 }
                 if witness_focus {
                     plan.push(RunSpec { profile: "z3", fresh: true, individually: true, simplified: false, in_child: false, engine: Engine::BmcCc });
@@ -815,7 +863,10 @@ pub fn run_mc(args: &Args, witness_focus: bool) {
         }
         n += 1;
         let mut ctx = Context::default();
-        let g = gen_mc_sys(&mut ctx, &mut r, &cfg, &mut stats);
+        let mut g = gen_mc_sys(&mut ctx, &mut r, &cfg, &mut stats);
+        if !witness_focus && r.chance(1, 3) && add_dying_constraint(&mut ctx, &mut g.sys, &mut r) {
+            g.features.push("dying-constraint");
+        }
         // "all bounds k" includes the bound 0 (the mc tool passes it for systems without states)
         let k = if r.chance(1, 12) {
             stats.inc("bound_zero");
